@@ -377,6 +377,9 @@ def check_fault(pid, tier, seed):
     corpus = we.corpus_jobs(pid)
     log("%s: %d workloads, %d fault plans (+%d corpus)" % (pid, len(base), len(jobs), len(corpus)))
     eng.stats["distinct_seq"] = len(sigs)
+    sample = list(jobs)
+    eng.rng.shuffle(sample)
+    eng.lockstep(sample[: (300, 3000)[ti]], grammar=False)
     eng.final(jobs + corpus, "f")
     return verdict(eng, pid, "model_checking", RULE_FAULT)
 
